@@ -410,6 +410,16 @@ struct Runner {
     keys: Vec<u64>,
     /// the steps applied so far
     done: Vec<Step>,
+    /// where this history keeps the files of its file-based registrations: one STABLE path per
+    /// template name (an unchanged template re-added later is the same file with the same bytes)
+    files_dir: std::path::PathBuf,
+}
+
+static RUNNER_IDS: std::sync::atomic::AtomicU64 = std::sync::atomic::AtomicU64::new(0);
+
+/// root of every file this process writes for file-based registrations (outside /repo and /verif)
+fn files_root() -> std::path::PathBuf {
+    std::env::temp_dir().join(format!("tera_verif_c10_{}", std::process::id()))
 }
 
 impl Runner {
@@ -432,7 +442,14 @@ impl Runner {
             hasher,
             keys: Vec::new(),
             done: Vec::new(),
+            files_dir: files_root().join(format!("r{}", RUNNER_IDS.fetch_add(1, std::sync::atomic::Ordering::Relaxed))),
         }
+    }
+
+    /// remove the files of this history
+    fn cleanup_files(&self) {
+        let _ = std::fs::remove_dir_all(&self.files_dir);
+        let _ = std::fs::remove_dir(files_root());
     }
 
     fn count(&mut self, key: &str) {
@@ -463,15 +480,19 @@ impl Runner {
                 }
                 let tera = &mut self.tera;
                 let outcome = if via_files {
-                    // the same batch through the file system: every source is written to a file of
-                    // its own (outside /repo and /verif) and registered under its name
-                    let dir = std::env::temp_dir().join(format!("c10-{}", std::process::id())).join("files");
+                    // the same batch through the file system: every source is written to a file
+                    // (outside /repo and /verif) and registered under its name.  The path is stable
+                    // per template name and the files stay until the history ends, so re-adding an
+                    // unchanged template is re-adding the same path with the same bytes; an earlier
+                    // occurrence of a name that comes again in the same batch gets a path of its own
+                    let dir = self.files_dir.clone();
                     let _ = std::fs::create_dir_all(&dir);
                     let files: Vec<(std::path::PathBuf, Option<String>)> = pairs
                         .iter()
                         .enumerate()
                         .map(|(i, (n, src))| {
-                            let path = dir.join(format!("t{i}.tpl"));
+                            let again_later = pairs[i + 1..].iter().any(|(m, _)| m == n);
+                            let path = if again_later { dir.join(format!("dup{i}_{}.tpl", mark(n))) } else { dir.join(format!("{}.tpl", mark(n))) };
                             std::fs::write(&path, src).expect("write template file");
                             (path, Some(n.clone()))
                         })
@@ -483,13 +504,6 @@ impl Runner {
                         let fs = files.clone();
                         catch(AssertUnwindSafe(|| tera.add_template_files(fs)))
                     };
-                    for (p, _) in &files {
-                        let _ = std::fs::remove_file(p);
-                    }
-                    let _ = std::fs::remove_dir(&dir);
-                    if let Some(parent) = dir.parent() {
-                        let _ = std::fs::remove_dir(parent);
-                    }
                     r
                 } else {
                     catch(AssertUnwindSafe(|| tera.add_raw_templates(pairs)))
@@ -699,6 +713,7 @@ fn run_fixed(h: &History, intents: &[String], thorough: bool, exhaustive: bool) 
     for (i, s) in h.steps.iter().enumerate() {
         r.apply(s, intents.get(i).map(|s| s.as_str()).unwrap_or("replay"));
     }
+    r.cleanup_files();
     HistoryRun {
         history: h.clone(),
         intents: intents.to_vec(),
@@ -1292,6 +1307,15 @@ impl Gen {
                 t.via_file = true;
             }
             label.push_str(".files");
+            // often the call also lists a resident template that came from a file and has NOT
+            // changed (a reload of a directory): same path, same bytes
+            let residents: Vec<&TplS> = cur.values().filter(|t| t.via_file && !items.iter().any(|i| i.name == t.name)).collect();
+            if !residents.is_empty() && self.rng.chance(1, 2) {
+                let r = residents[self.rng.below(residents.len())].clone();
+                let pos = self.rng.below(items.len() + 1);
+                items.insert(pos, r);
+                label.push_str(".with_unchanged_file");
+            }
         }
         (Step::Add(items), label)
     }
@@ -1315,6 +1339,7 @@ fn run_random(mut rng: Rng, index: u64, max_steps: usize, thorough: bool) -> His
         steps.push(step);
         intents.push(intent);
     }
+    r.cleanup_files();
     HistoryRun {
         history: History { prefixes, perm2: index % 3, perm3: (index / 3) % 3, steps },
         intents,
@@ -1400,6 +1425,36 @@ fn exhaustive_histories(max_len: usize) -> Vec<(History, Vec<String>)> {
                 idx += 1;
             }
         }
+    }
+    // file-based reloads: a failing call that also lists an UNCHANGED file must leave the instance
+    // identical (the unchanged template included)
+    let item = |i: usize| -> TplS {
+        match &alpha[i].1 {
+            Step::Add(items) => {
+                let mut t = items[0].clone();
+                t.via_file = true;
+                t
+            }
+            _ => unreachable!(),
+        }
+    };
+    let (layout, page, page_missing_parent) = (item(0), item(1), item(2));
+    let mut broken = TplS::new("c");
+    broken.bad_ref = Some("filter".into());
+    broken.via_file = true;
+    let mut unparsable = TplS::new("e");
+    unparsable.syntax_error = true;
+    unparsable.via_file = true;
+    let mut raw_layout = layout.clone();
+    raw_layout.via_file = false;
+    for (steps, what) in [
+        (vec![vec![layout.clone(), page.clone()], vec![layout.clone(), broken.clone()], vec![layout.clone()], vec![page.clone(), unparsable.clone()]], "files.reload_with_unchanged_layout"),
+        (vec![vec![layout.clone()], vec![page.clone()], vec![broken.clone(), layout.clone(), page.clone()], vec![layout.clone(), page_missing_parent.clone()]], "files.reload_with_unchanged_files"),
+        (vec![vec![raw_layout.clone()], vec![layout.clone()], vec![layout.clone(), unparsable.clone()], vec![layout.clone(), broken.clone()]], "files.raw_then_file_then_failing_reload"),
+    ] {
+        let n = steps.len();
+        out.push((History { prefixes: vec![], perm2: idx % 3, perm3: (idx / 3) % 3, steps: steps.into_iter().map(Step::Add).collect() }, vec![format!("exhaustive.{what}"); n]));
+        idx += 1;
     }
     out
 }
@@ -1651,6 +1706,7 @@ fn replay(path: &str, exe: &std::path::Path, thorough: bool) {
         runner.apply(s, "replay");
         observed.push(runner.snap.renders.clone());
     }
+    runner.cleanup_files();
     let run = HistoryRun {
         history: h.clone(),
         intents: vec![],
@@ -1780,6 +1836,8 @@ fn run_child(args: &[String], timeout: std::time::Duration) -> (String, String) 
     use std::process::{Command, Stdio};
     let exe = std::env::current_exe().expect("own path");
     let mut child = Command::new(exe).args(args).stdin(Stdio::null()).stdout(Stdio::piped()).stderr(Stdio::null()).spawn().expect("spawn child");
+    // (whatever happens to the child, the files it wrote for file-based registrations go away)
+    let child_files = std::env::temp_dir().join(format!("tera_verif_c10_{}", child.id()));
     let mut stdout = child.stdout.take().unwrap();
     let reader = std::thread::spawn(move || {
         let mut s = String::new();
@@ -1801,6 +1859,7 @@ fn run_child(args: &[String], timeout: std::time::Duration) -> (String, String) 
             Err(e) => break format!("wait failed {e}"),
         }
     };
+    let _ = std::fs::remove_dir_all(&child_files);
     (status, reader.join().unwrap_or_default())
 }
 
